@@ -86,7 +86,7 @@ def scenario(big: bool = False) -> Any:
         "A": st.sampled_from([1, 1, 2, 3, 4, None] + ([5, 6, 8] if big else [])),
         "P": st.integers(0, 7 if big else 4),
         "N": st.sampled_from([None, None, 1, 2, 3, 4, 5] + ([6, 8, 11] if big else [])),
-        "msgs": st.lists(cm.message(kinds=("async", "async", "async", "sync", "bad", "unknown", "shared", "late", "dyn", "dyn", "plaincls"), timeouts=(None, None, None, None, 3, "3", "0.35", 1.5, "5")), min_size=1, max_size=16 if big else 9),
+        "msgs": st.lists(cm.message(kinds=("async", "async", "async", "sync", "bad", "unknown", "shared", "late", "dyn", "dyn", "plaincls", "collide"), timeouts=(None, None, None, None, 3, "3", "0.35", 1.5, "5")), min_size=1, max_size=16 if big else 9),
         "stop": cm.times(),
         "has_stop": st.booleans(),
         "ends": st.booleans(),
